@@ -57,3 +57,13 @@ VARIANTS += [
     M('C11', 'ref-subdir-strips-every-underscore', E(GT, "        return name[1:] if name.startswith('_') else name", "        return name.lstrip('_')"),
       rule='C11-REFDIR', key='ref_subdir'),
 ]
+
+VARIANTS += [
+    M('C11', 'encoding-guessed-from-a-sample', E(UT, "                for line in open(path, 'rb'):\n                    detector.feed(line)", "                for line in open(path, 'rb').readlines(4096):\n                    detector.feed(line)"),
+      rule='C11-ENCODING', key='detector-sees-the-whole-file'),
+    M('C11', 'encoding-detection-stops-after-200-lines', E(UT, "                for line in open(path, 'rb'):\n                    detector.feed(line)\n                    if detector.done:\n                        break",
+                                                            "                for n_, line in enumerate(open(path, 'rb')):\n                    detector.feed(line)\n                    if detector.done or n_ > 200:\n                        break"),
+      rule='C11-ENCODING', key='detector-sees-the-whole-file'),
+    M('C11', 'refactor-detection-file-opened-in-with', E(UT, "                for line in open(path, 'rb'):\n                    detector.feed(line)\n                    if detector.done:\n                        break",
+                                                          "                with open(path, 'rb') as fh:\n                    for line in fh:\n                        detector.feed(line)\n                        if detector.done:\n                            break"), kind='refactor'),
+]
